@@ -340,6 +340,8 @@ def service_loop_iteration(w: World, sleep: float):
     check(len(calls("done")) == (1 if r._Runnable__shutdown else 0), "cleanup runs exactly once iff the stop was final")
     dos = calls("do")
     sleeps = calls("interruptable_sleep")
+    if not stop_requested_before:
+        check(len(dos) >= 1, "a service that was not asked to stop calls its work function")
     # effects of the (arbitrary) iteration appear twice in the log: they may repeat any number of times
     if len(dos) > 0:
         b = dos[0].args[0]
